@@ -577,6 +577,21 @@ func (g *gen) specs(role spectypes.BeaconRole, e era) (honest []*mspec, mutants 
 		m.at = 500 * time.Millisecond // estimated round 1: rounds 1 and 2 are allowed
 		add(m, "round-too-far-ahead", "", "round-too-far-ahead", "message round is too far from estimated")
 	}
+	// the same clause at both edges of every estimated-round window of the role (2 s rounds, then
+	// 2 min rounds): a prepare two rounds ahead of the estimate must be refused, one round ahead is fine
+	for e := specqbft.Round(1); e+2 <= maxR; e++ {
+		for _, edge := range []struct {
+			name string
+			at   time.Duration
+		}{{"start", roundStart(e) + time.Millisecond}, {"end", roundStart(e+1) - time.Millisecond}} {
+			far := main.prepare(e+2, 1, valueA)
+			far.at = edge.at
+			add(far, fmt.Sprintf("round-too-far-ahead@est%d-%s", e, edge.name), "", "round-too-far-ahead", "message round is too far from estimated")
+			ok := main.prepare(e+1, 1, valueA)
+			ok.at = edge.at
+			add(ok, "edge-ok", fmt.Sprintf("round-one-ahead@est%d-%s:", e, edge.name), "", "")
+		}
+	}
 	{
 		m := main.get("prepare.r2.s1.A")
 		m.at = 500 * time.Millisecond
